@@ -200,7 +200,7 @@ GEN_TIES = {
                 "from gscrib/printrun/printcore.py and device.py",
     },
     "gcoder": {
-        "props": {"C15"},
+        "props": {"C15", "C01"},
         "gen": "gen_gcoder.py", "gen_file": "GscribModel/Gen/GcoderSrc.lean", "tie": "GcoderTie", "validate": "harness.tie_gcoder",
         "gens": [("gen_sender.py", "GscribModel/Gen/SenderSrc.lean"), ("gen_gcoder.py", "GscribModel/Gen/GcoderSrc.lean")],
         "ties": ["GcoderTie"],
